@@ -183,6 +183,8 @@ def replay_graph(ctx, name, g, nf, per_class):
             if cnt.get(c, 0) < per_class:
                 cnt[c] = cnt.get(c, 0) + 1
                 only.append(ei)
+    if g.unreachable:
+        raise core.Machinery('dump has %d unreachable transitions' % g.unreachable)
     segs = g.tour(maxlen=40, only=only)
     jobs = [(nf, [g.edges[e][1] for e in seg]) for seg in segs]
     res = forkpool.map_fork(run_events, jobs, nproc=16)
@@ -226,6 +228,7 @@ def warm(ctx):
     for name, c in DUMPS:
         r = tlc.dump_cached("WrapNumbers", c(), constraints=["Bound"])
         ctx.tlc(name, r)
+        graph.from_dump(r)
         out.append((name, r))
     return out
 
@@ -310,7 +313,7 @@ def check(ctx):
     # (2) transition tour
     ops = set()
     for name, r in warm(ctx):
-        g = graph.Graph(r.tr)
+        g = graph.from_dump(r)
         ops |= replay_graph(ctx, name, g, 2 if "2fields" in name else 1,
                             None if (thorough or len(g.edges) < 60000) else 3)
     if {"call", "cache_clear", "k_set", "k_del"} - ops:
